@@ -353,10 +353,10 @@ theorem byteStep {x y : InSt β} {out : Option (Out κ β)} {lost : List β} (he
 
 theorem sendRead_internal (P : Params) (gk : List Nat → Bool → Except PyErr (Option κ)) (val : β → Nat)
     (st : InSt β) (ag : Agenda β) :
-    (sendRest.sendRead P gk val st ag).2.2 = ag ∧
-    ∃ lost, Internal st (resOut (sendRest.sendRead P gk val st ag).1) lost (sendRest.sendRead P gk val st ag).2.1 ∧
-      (∀ o, (sendRest.sendRead P gk val st ag).1 = .ok o → lost = []) := by
-  unfold sendRest.sendRead
+    (sendRead P gk val st ag).2.2 = ag ∧
+    ∃ lost, Internal st (resOut (sendRead P gk val st ag).1) lost (sendRead P gk val st ag).2.1 ∧
+      (∀ o, (sendRead P gk val st ag).1 = .ok o → lost = []) := by
+  unfold sendRead
   simp only []
   have hr : SameEvents st (nonblockingRead P st).2 ∧ pend (nonblockingRead P st).2 = pend st := by
     simp [SameEvents, nonblockingRead, pend]
@@ -470,6 +470,7 @@ theorem sendRest_took (P : Params) (gk : List Nat → Bool → Except PyErr (Opt
         | none =>
           simp only [evOf] at ht0
           simp only []
+          unfold afterWait
           have hsort := sort_internal (κ := κ) st1
           generalize hso : sortSched st1.scheduled = so at hsort
           cases so with
